@@ -10,7 +10,7 @@ from ..oracle.schema import parikh, schema
 from ..run import hyp_search, mix
 from .c01 import symbol_subset
 
-RULE = ('add-only histories in arbitrary order (add_child, add_child with forward, xml_* instance assignment), also with read-only to_string() calls between the additions: (a) ALL sequences of <=3 adds '
+RULE = ('add-only histories in arbitrary order (add_child, add_child with forward, xml_* instance assignment), also with read-only to_string() calls between the additions, and additions after a removal (add a, add a, remove one, add b for all a, b of the subset): (a) ALL sequences of <=3 adds '
         'over a deterministic 6-symbol subset of every type; (b) Hypothesis-drawn adaptive sequences (<=14 adds quick, '
         '<=30 thorough) where each next symbol is drawn from the oracle classes prefix / compatible / incompatible / '
         'foreign.  Oracle after every add that returned normally: completable(multiset of held names) on the '
@@ -97,6 +97,19 @@ def run_shard(ctx, shard, acc):
                         if res[0] == 'ok':
                             held = h2
                     acc.case({'element': run.el, 'ops': run.ops}, nontrivial(run), n)
+                    if f:
+                        acc.fail(f, raise_=False)
+            # additions AFTER a removal: two of a kind, one taken away again, then every other symbol is offered -
+            # what is accepted must still be completable together with the child that stayed
+            for a in syms:
+                for b in syms:
+                    run, f = execute(els[0], [['add', a], ['add', a], ['remove', 0], ['add', b]])
+                    if run.e is None:
+                        break
+                    if not dfa.completable({a: 1, b: 1} if a != b else {a: 2}):
+                        run.flags.add('offer-incompatible')
+                    acc.case({'element': run.el, 'ops': run.ops}, nontrivial(run), 4)
+                    acc.count('after-removal')
                     if f:
                         acc.fail(f, raise_=False)
         return
